@@ -87,10 +87,13 @@ class Box:
                 def __init__(self, path):
                     with real_scandir(path) as it:
                         ents = {e.name: e for e in it}
-                    self.ents = [ents[n] for n in schedule.order(path, list(ents))]
+                    self.ents = iter([ents[n] for n in schedule.order(path, list(ents))])
 
                 def __iter__(self):
-                    return iter(self.ents)
+                    return self
+
+                def __next__(self):
+                    return next(self.ents)
 
                 def __enter__(self):
                     return self
